@@ -1,6 +1,6 @@
 (* C15 - property theorems only. *)
 From Coq Require Import String.
-From V Require Import Lib.Base C15.Model C15.Proofs C15.Gen.
+From V Require Import Lib.Base C15.Model C15.Proofs C15.Gen C15.Inst.
 Local Open Scope string_scope.
 
 (* Quiescence, generic: for EVERY system of threads whose blocking points are
@@ -16,17 +16,11 @@ Theorem C15_quiesce : forall sys init s ls s',
   length ls <= nalive (stat s) + data s /\ (stuck sys s' -> all_term s').
 Proof.
   intros sys init s ls s' G I A R. destruct (run_inv sys ls s s' I R) as (I' & R' & M). split; [lia|].
-  intros St. eapply stuck_all_term; eauto. eapply incl_tran; eauto.
+  intros St. apply (stuck_all_term sys init s' G I'); [eapply incl_tran; [exact A|exact R']|exact St].
 Qed.
 Print Assumptions C15_quiesce.
 
 (* ---- the instance: the generated table of the real code ---- *)
-Definition proto_files : list string :=
-  filter (fun f => negb (mem f ["connection.go"; "muxer/muxer.go"; "protocol/protocol.go"])) (files_of points).
-Definition sol := solicited points.
-Definition sysof (f : string) : system := app (proto_system closers sol points f) (infra_system closers points).
-Definition lmn_server := "protocol/localmessagenotification/server.go".
-
 (* every client.go / server.go with blocking points, except the DMQ
    local-message-notification server (known finding), is guarded: all its
    points - API calls, handlers on recvLoop, helper goroutines, engine loops,
@@ -35,14 +29,16 @@ Definition lmn_server := "protocol/localmessagenotification/server.go".
    NOT counted (doneChan closes only after recvLoop returned). *)
 Definition others := filter (fun f => negb (String.eqb f lmn_server)) proto_files.
 Definition offending := flat_map (fun f => map (fun x => (f, x)) (unguarded (sysof f) init_signals)) others.
+Lemma guarded_all : forallb (fun f => guarded (sysof f) init_signals) others = true.
+Proof. vm_compute. reflexivity. Qed.
 Theorem C15_guarded_partial : forall f, In f others -> guarded (sysof f) init_signals = true.
-Proof. apply forallb_forall. vm_compute. reflexivity. Qed.
+Proof. intros f Hf. exact (proj1 (forallb_forall _ _) guarded_all f Hf). Qed.
 Print Assumptions C15_guarded_partial.
 
 Theorem C15_quiesce_real : forall f, In f others -> forall s ls s',
   Inv (sysof f) s -> incl init_signals (raised s) -> run (sysof f) s ls = Some s' ->
   length ls <= nalive (stat s) + data s /\ (stuck (sysof f) s' -> all_term s').
-Proof. intros f Hf s ls s' I A R. eapply C15_quiesce; eauto. apply C15_guarded_partial; exact Hf. Qed.
+Proof. intros f Hf s ls s' I A R. exact (C15_quiesce (sysof f) init_signals s ls s' (C15_guarded_partial f Hf) I A R). Qed.
 
 (* the finding: the points no signal at all can release *)
 Theorem C15_guarded_refuted :
@@ -54,18 +50,13 @@ Proof. vm_compute. reflexivity. Qed.
 (* Close returns and the error channel is closed - for every protocol file,
    the DMQ server included: connClosedChan (what Close waits for) and the
    closing of Connection.errorChan are among the signals that become raised *)
-Theorem C15_close : forall f, In f proto_files ->
-  mem "connClosed" (final (sysof f) init_signals) = true
-  /\ mem "closed:connection.go:errorChan" (final (sysof f) init_signals) = true
-  /\ mem "closed:muxer/muxer.go:errorChan" (final (sysof f) init_signals) = true.
-Proof.
-  assert (H : forallb (fun f => mem "connClosed" (final (sysof f) init_signals)
-                        && mem "closed:connection.go:errorChan" (final (sysof f) init_signals)
-                        && mem "closed:muxer/muxer.go:errorChan" (final (sysof f) init_signals)) proto_files = true)
-    by (vm_compute; reflexivity).
-  intros f Hf. rewrite forallb_forall in H. specialize (H f Hf).
-  apply andb_true_iff in H. destruct H as [H H3]. apply andb_true_iff in H. destruct H as [H1 H2]. auto.
-Qed.
+Definition close_ok (f : string) : bool :=
+  let fin := final (sysof f) init_signals in
+  mem "connClosed" fin && mem "closed:connection.go:errorChan" fin && mem "closed:muxer/muxer.go:errorChan" fin.
+Lemma close_all : forallb close_ok proto_files = true.
+Proof. vm_compute. reflexivity. Qed.
+Theorem C15_close : forall f, In f proto_files -> close_ok f = true.
+Proof. intros f Hf. exact (proj1 (forallb_forall _ _) close_all f Hf). Qed.
 Print Assumptions C15_close.
 
 (* non-vacuity / the dead-guard distinction: the same select is guarded in
@@ -74,5 +65,6 @@ Example C15_dead_guard :
   alt_signal [] (fun _ _ _ _ _ => false) "f.go" "api" "recv" "c.DoneChan()" "protoDone" = Some "protoDone"
   /\ alt_signal [] (fun _ _ _ _ _ => false) "f.go" "handler" "recv" "c.DoneChan()" "protoDone" = None.
 Proof. split; reflexivity. Qed.
-Example C15_nonvacuous : length points > 200 /\ length proto_files = 13%nat /\ In "protocol/chainsync/client.go" others.
-Proof. vm_compute. repeat split; auto 20. Qed.
+Example C15_nonvacuous :
+  (Nat.ltb 200 (length points) && Nat.eqb (length proto_files) 13 && mem "protocol/chainsync/client.go" others) = true.
+Proof. vm_compute. reflexivity. Qed.
